@@ -5,6 +5,12 @@ pub fn judge(prop: &str, prefixes: &[&str], case_json: serde_json::Value, rep: &
     if rep.inconclusive.is_some() {
         return;
     }
+    // the check script narrows the verdict to the property it is deciding
+    let env_prop = std::env::var("VERIF_FUZZ_PROP").ok();
+    let env_pref = std::env::var("VERIF_FUZZ_PREFIXES").ok();
+    let prop: &str = env_prop.as_deref().unwrap_or(prop);
+    let owned: Vec<String> = env_pref.map(|p| p.split(',').map(|x| x.to_string()).collect()).unwrap_or_else(|| prefixes.iter().map(|x| x.to_string()).collect());
+    let prefixes: Vec<&str> = owned.iter().map(|x| x.as_str()).collect();
     for v in &rep.violations {
         if prefixes.iter().any(|p| v.key.starts_with(p)) {
             let dir = std::env::var("VERIF_FUZZ_OUT").unwrap_or_else(|_| "/verif/work/fuzz-out".to_string());
